@@ -17,6 +17,7 @@ package header
 import (
 	"net"
 	"net/http"
+	"strings"
 
 	"github.com/google/martian/v3"
 )
@@ -48,7 +49,9 @@ func NewForwardedModifier() martian.RequestModifier {
 				xff = req.RemoteAddr
 			}
 
-			if v := req.Header.Get("X-Forwarded-For"); v != "" {
+			// Consider every X-Forwarded-For line: Get would only see the first one
+			// and Set below would drop the others.
+			if v := strings.Join(req.Header["X-Forwarded-For"], ", "); v != "" {
 				xff = v + ", " + xff
 			}
 
